@@ -408,6 +408,10 @@ def apply_tl(W, op):
         nodes = [n for t in cur._trees for n in N.tree_nodes(t) if n.taxon is not None]
         before = [n.taxon for n in nodes]
         cur.migrate_taxon_namespace(W.new_ns("empty"), taxon_mapping_memo=memo)
+        for t in cur._trees:
+            # which taxa end up equal is the caller's doing (the memo sends every old taxon to its own new one,
+            # also two old taxa that carried the same label): only closure / preservation clauses apply
+            W.rec(t).unified = False
         for n, b in zip(nodes, before):
             if b in given and n.taxon is not given[b]:
                 return [("memo-honoured", "a node labelled %r was not moved to the taxon the caller's memo names" % (b.label,))]
